@@ -146,7 +146,20 @@ func NewOnWorld(w *sim.World, o EngineOptions) (*Gateway, error) {
 	conf := engine.NewConfiguration(schema)
 	conf.SetDataSources(dss)
 	fcs := FieldConfigs(l)
-	fcs = append(fcs, o.FieldConfigs...)
+	// one configuration per coordinate: extra settings are merged into the argument
+	// configuration of the same field (the planner uses the first match)
+	for _, extra := range o.FieldConfigs {
+		merged := false
+		for i := range fcs {
+			if fcs[i].TypeName == extra.TypeName && fcs[i].FieldName == extra.FieldName {
+				fcs[i].HasAuthorizationRule = fcs[i].HasAuthorizationRule || extra.HasAuthorizationRule
+				merged = true
+			}
+		}
+		if !merged {
+			fcs = append(fcs, extra)
+		}
+	}
 	conf.SetFieldConfigurations(fcs)
 	if o.MultiFetch {
 		conf.EnableMultiFetch()
